@@ -439,18 +439,46 @@ def witness_replay(ctx):
     if any(k.startswith("rd") for k in w.sym_inputs):
         return None          # the path contains short reads, which a healthy local filesystem does not produce
     obs, tree = run_native(scenario, scenario.get("flavour", ctx.task["flavour"]))
+    if scenario.get("shim") and _shared_hash_dirs(tree):
+        return None          # crash/fault positions count directory creations; see _shared_hash_dirs
     for i, (p, o) in enumerate(zip(preds, obs)):
         if o.get("outcome") == "unsupported":
             return None
         if p["outcome"] == "crash" or o.get("outcome") == "crash":
             if p["outcome"] != o.get("outcome"):
-                return {"step": i, "op": scenario["steps"][i], "model": p, "native": o, "shim": scenario.get("shim")}
+                return _wm({"step": i, "op": scenario["steps"][i], "model": p, "native": o, "shim": scenario.get("shim")}, scenario)
             continue
         if not obs_equal(p, o, loose_io_kind=True):
-            return {"step": i, "op": scenario["steps"][i], "model": p, "native": o, "shim": scenario.get("shim")}
+            return _wm({"step": i, "op": scenario["steps"][i], "model": p, "native": o, "shim": scenario.get("shim")}, scenario)
     if len(obs) < len(preds):
-        return {"step": len(obs), "model": "more steps", "native": "ended early"}
+        return _wm({"step": len(obs), "model": "more steps", "native": "ended early"}, scenario)
     return True
+
+
+def _shared_hash_dirs(tree):
+    """The model assumes distinct digests fall into distinct first-level directories (a stated
+    assumption: the layout only affects how many mkdir calls a store makes).  A concrete replay whose
+    hashes happen to share one is outside it; positions counted in filesystem effects do not transfer."""
+    seen = {}
+    for p in (tree or {}):
+        m = re.match(r"cache/(content-v2/[^/]+|index-v5)/([^/]+)/([^/]+)", p)
+        if m:
+            seen.setdefault((m.group(1), m.group(2)), set()).add(m.group(3))
+    return any(len(v) > 1 for v in seen.values())
+
+
+def _wm(d, scenario):
+    """Keep the scenario of a disagreeing witness path for diagnosis (build/ is scratch, not evidence)."""
+    try:
+        dd = os.path.join(VERIF, "build", "witness_mismatch")
+        os.makedirs(dd, exist_ok=True)
+        h = hashlib.sha256(json.dumps(scenario, sort_keys=True, default=str).encode()).hexdigest()[:12]
+        with open(os.path.join(dd, h + ".json"), "w") as fh:
+            json.dump({"scenario": scenario, "verdict": d}, fh, indent=1, default=str)
+        d["file"] = os.path.join(dd, h + ".json")
+    except Exception:
+        pass
+    return d
 
 
 def replay_candidate(c, task):
